@@ -61,8 +61,10 @@ def gen_n(r, cls, bc):
     if cls == 'mid-':
         return -r.randint(41, 5000)
     if cls in ('boundary', 'boundary-'):
-        # around the bc*n = 1000 switch of the implementation (and our few-bits envelope)
-        n = max(3, (1000 + r.randint(-3, 3) * bc) // bc + r.choice([-1, 0, 0, 1]))
+        # around the switch of the implementation between the exact power and binary exponentiation
+        # (bc*n = 1000 in the snapshot, 10000 since the fix of C04's axis-power finding) and around our few-bits envelope
+        T = r.choice([700, 1000, 10000])
+        n = max(3, (T + r.randint(-3, 3) * bc) // bc + r.choice([-1, 0, 0, 1]))
         return n if cls == 'boundary' else -n
     if cls == '1e6':
         return 10**6 + r.randint(-5, 5)
@@ -161,7 +163,7 @@ def mech_key(a, n, p, what):
         reg = 'pow2-base'
     elif k <= 2:
         reg = 'n<=2'
-    elif bc * k < 1000:
+    elif bc * k < 10000:
         reg = 'exact-path'
     else:
         reg = 'binary-exponentiation'
